@@ -391,6 +391,35 @@ def r10(ctx, rep):
     rep.borrowed(C07.r4, ctx, "C09.R10", "generated relation aliases are distinct from every name already used in the same SELECT, and the flag that drops table qualifiers belongs to the SELECT it was computed for", only=r"^(names-scope|writes-in-scope)")
 
 
+TEXT_CHANGING = {"trim", "trim_start", "trim_end", "trim_matches", "trim_start_matches", "trim_end_matches", "strip_prefix", "strip_suffix", "to_lowercase", "to_uppercase",
+                 "to_ascii_lowercase", "to_ascii_uppercase", "replace", "replacen", "split", "split_once", "rsplit", "chars", "truncate", "pop", "remove", "retain", "nth", "skip", "take",
+                 "filter", "rev", "repeat", "escape_default", "escape_debug", "split_whitespace", "lines", "get", "drain", "insert", "push", "push_str", "make_ascii_lowercase", "make_ascii_uppercase"}
+
+
+def r11(ctx, rep):
+    rep.rule("C09.R11", "the lexer takes an identifier as it is written: the name part is the very text of the word / of what stands between the backticks", floor=2)
+    syn = ctx.syn
+    f = syn.fn("lexer::ident_part", crate="prqlc_parser")
+    # every closure of the function that receives the matched text only converts it (`to_string`, `to_owned`, `into`, `String::from`)
+    n_conv = 0
+    for n in walk(f["body"]):
+        if n.get("k") == "mcall" and n["m"] in ("map", "map_with", "try_map", "map_slice") and n["a"] and n["a"][-1].get("k") == "closure":
+            cl = n["a"][-1]
+            n_conv += 1
+            changing = sorted({x["m"] for x in walk(cl["body"]) if x.get("k") == "mcall" and x["m"] in TEXT_CHANGING} |
+                              {"[..]" for x in walk(cl["body"]) if x.get("k") == "index"} | {"format!" for x in walk(cl["body"]) if x.get("k") == "macro" and x.get("n") == "format"})
+            rep.check(not changing, f"ident-text:closure:{n_conv}", f"ident_part passes the matched text through `{show(cl, maxdepth=8)[:80]}`, which alters it ({changing}): `` ` amount` `` and `amount` are "
+                      "different column names; the identifier that reaches the SQL must be the one written", file=f["file"], line=n["l"], fn=f["path"])
+    # the backticked alternative: everything except a backtick, any number of times, between two backticks
+    bt = [n for n in walk(f["body"]) if n.get("k") == "mcall" and n["m"] == "delimited_by" and all("`" in show(a) for a in n["a"])]
+    ok = False
+    for n in bt:
+        chain = show(n["r"], maxdepth=14).replace(" ", "")
+        ok = ok or (re.match(r"^none_of\('`'\)\.repeated\(\)", chain) is not None and not re.search(r"\.(at_least|at_most|exactly|filter|and_is|not)\(", chain))
+    rep.check(len(bt) == 1 and ok, "ident-text:backtick", "the backticked alternative of ident_part must be `none_of('`').repeated()` (collected or sliced) between two backticks: every character "
+              "between them belongs to the name", file=f["file"], line=bt[0]["l"] if bt else f["l"], fn=f["path"])
+
+
 def run(ctx, rep):
-    for r in (r1, r2, r3, r4, r5, r6, r7, r8, r9, r10):
+    for r in (r1, r2, r3, r4, r5, r6, r7, r8, r9, r10, r11):
         rep.guard(r, ctx)
